@@ -174,8 +174,12 @@ func (g *c08Gen) strct(d int) types.Type {
 
 func (g *c08Gen) typ(d int) types.Type {
 	t := g.typ0(d)
-	if g.rng.Intn(7) == 0 {
+	switch g.rng.Intn(16) {
+	case 0, 1:
 		return g.named(t)
+	case 2:
+		g.nn++
+		return types.NewAlias(types.NewTypeName(token.NoPos, g.pkg, fmt.Sprintf("A%s_%d", g.tag, g.nn), nil), t)
 	}
 	return t
 }
@@ -307,12 +311,23 @@ func c08Skeleton(t types.Type) string {
 	return c08reNum.ReplaceAllString(s, "N")
 }
 
-var c08reNum = regexp.MustCompile(`N[a-z0-9]*_[0-9]+`)
+var c08reNum = regexp.MustCompile(`[NA][a-z0-9]*_[0-9]+`)
 
 // expand: every Go func type becomes a two-word struct, so that the plain go/types Sizes
 // (not the wrapper under test) give the reference for what the wrapper should answer.
 func c08Expand(t types.Type, memo map[types.Type]types.Type) types.Type {
+	return c08ExpandEx(t, memo, true)
+}
+
+// c08ExpandEx with throughAlias=false mirrors the PRESENT goProgram.extraSize, which does not look
+// through *types.Alias (the func fields below an alias keep their one-word go/types size).
+func c08ExpandEx(t types.Type, memo map[types.Type]types.Type, throughAlias bool) types.Type {
 	switch u := t.(type) {
+	case *types.Alias:
+		if throughAlias {
+			return c08ExpandEx(types.Unalias(u), memo, throughAlias)
+		}
+		return t
 	case *types.Named:
 		if r, ok := memo[u]; ok {
 			return r
@@ -323,18 +338,18 @@ func c08Expand(t types.Type, memo map[types.Type]types.Type) types.Type {
 		}
 		nn := types.NewNamed(types.NewTypeName(token.NoPos, u.Obj().Pkg(), u.Obj().Name()+"x", nil), types.Typ[types.Int], nil)
 		memo[u] = nn
-		nn.SetUnderlying(c08Expand(u.Underlying(), memo))
+		nn.SetUnderlying(c08ExpandEx(u.Underlying(), memo, throughAlias))
 		return nn
 	case *types.Signature:
 		up := types.Typ[types.UnsafePointer]
 		return types.NewStruct([]*types.Var{types.NewField(token.NoPos, nil, "f", up, false), types.NewField(token.NoPos, nil, "d", up, false)}, nil)
 	case *types.Array:
-		return types.NewArray(c08Expand(u.Elem(), memo), u.Len())
+		return types.NewArray(c08ExpandEx(u.Elem(), memo, throughAlias), u.Len())
 	case *types.Struct:
 		fs := make([]*types.Var, u.NumFields())
 		for i := range fs {
 			f := u.Field(i)
-			fs[i] = types.NewField(token.NoPos, f.Pkg(), f.Name(), c08Expand(f.Type(), memo), false)
+			fs[i] = types.NewField(token.NoPos, f.Pkg(), f.Name(), c08ExpandEx(f.Type(), memo, throughAlias), false)
 		}
 		return types.NewStruct(fs, nil)
 	}
@@ -343,6 +358,8 @@ func c08Expand(t types.Type, memo map[types.Type]types.Type) types.Type {
 
 func c08LayoutHasFunc(t types.Type, seen map[types.Type]bool) bool {
 	switch u := t.(type) {
+	case *types.Alias:
+		return c08LayoutHasFunc(types.Unalias(u), seen)
 	case *types.Named:
 		if seen[u] {
 			return false
